@@ -887,6 +887,53 @@ func c03AcrossVersion(dotu bool, maxpend, P int) Scenario {
 	return vsScenario(&VsSpec{Name: name, Body: body, Check: check, P: P})
 }
 
+// c03ReplyHooks: an implementation with SrvReqProcess / SrvReqRespond that gives some
+// replies their final form in SrvReqRespond; pipelined requests of several kinds. Each
+// tag gets exactly one reply, its own.
+func c03ReplyHooks(dotu bool, maxpend, P int) Scenario {
+	name := fmt.Sprintf("implementation that packs replies again in SrvReqRespond maxpend=%d dotu=%v", maxpend, dotu)
+	var s *sess
+	var msgs []*wire.Msg
+	body := func() {
+		s = newSess(SrvOpt{Msize: 256, Dotu: dotu, Maxpend: maxpend, ReqHooks: true})
+		msgs = []*wire.Msg{s.prepare("stat", 10, 100), s.prepare("open", 11, 101), s.prepare("read", 12, 102)}
+		s.fs.Script[reqKey{0, 101, 0}] = &Action{Err: "refused by the implementation"}
+		s.setupN = len(s.c.Collect())
+		vs.Window(true)
+		s.c.Send(dotu, msgs...)
+		vs.Idle()
+		vs.Window(false)
+		s.c.Collect()
+	}
+	check := stdCheck("C03", func(x *vs.Exec) *Viol {
+		frames := s.c.Frames[s.setupN:]
+		detail := map[string]any{"wire": strings.Split(framesString(frames), "\n"), "fslog": strings.Split(s.fs.logString(), "\n")}
+		got := map[uint16]int{}
+		for _, f := range frames {
+			if f.Msg == nil {
+				return &Viol{Sig: "C03/reply-hooks/malformed-frame", Msg: f.Err, Detail: detail}
+			}
+			got[f.Msg.Tag]++
+			ok := false
+			for _, r := range s.fs.resps(0, f.Msg.Tag, 0) {
+				if r.Reply == renderReply(f.Msg) {
+					ok = true
+				}
+			}
+			if !ok {
+				return &Viol{Sig: "C03/reply-hooks/wrong-content", Msg: fmt.Sprintf("the reply %s is not what the implementation produced for the request with that tag\n%s", f.Msg, framesString(frames)), Detail: detail}
+			}
+		}
+		for _, m := range msgs {
+			if got[m.Tag] != 1 {
+				return &Viol{Sig: fmt.Sprintf("C03/reply-hooks/reply-count-%d", got[m.Tag]), Msg: fmt.Sprintf("%s got %d replies\n%s", m, got[m.Tag], framesString(frames)), Detail: detail}
+			}
+		}
+		return nil
+	}, nil)
+	return vsScenario(&VsSpec{Name: name, Body: body, Check: check, P: P})
+}
+
 // c03BurstBehindStalledWriter: n large replies (more than 64 KiB in all) become ready
 // while the writer cannot write; then it can. Each request gets exactly one reply, its
 // own (a writer that gathers replies must not send any of them twice).
@@ -953,6 +1000,7 @@ func c03BurstBehindStalledWriter(n int, count uint32, maxpend int, dotu bool) Sc
 
 func c03Scenarios(tier string) []Scenario {
 	var out []Scenario
+	out = append(out, c03ReplyHooks(false, 0, 1), c03ReplyHooks(true, 2, 0))
 	out = append(out, c03BurstBehindStalledWriter(12, 8000, 0, false), c03BurstBehindStalledWriter(20, 8192, 2, true), c03BurstBehindStalledWriter(70, 1000, 1, false))
 	out = append(out, c03AcrossVersion(false, 0, 1), c03AcrossVersion(true, 2, 1))
 	// Tflush is a request too: flushes of flushes are each owed exactly one reply
